@@ -54,22 +54,58 @@ theorem capsThrough_canFlush (stack : List LayerCfg) (c : Caps) (hb : ¬ hasBuff
     have h2 : ¬ hasBuffer ls := fun ⟨x, hx, e⟩ => hb ⟨x, by simp [hx], e⟩
     simp [ih _ h2, wrapCaps_canFlush _ _ h1]
 
+/-- what a passing layer makes of the result of its `next`: the retry loop of a buffer, then the relay outward -/
+def step (l : LayerCfg) (r : Result) : Result := post l (retryMul l r)
+
 /-- layers that do not intervene hand the request inward and post-process what comes back -/
 theorem serve_append (outer rest : List LayerCfg) (h : Req → Script) (req : Req) (c : Caps)
     (hout : ∀ l ∈ outer, intervenes l req = false) :
-    serve (outer ++ rest) h req c = outer.foldr post (serve rest h req (capsThrough outer c)) := by
+    serve (outer ++ rest) h req c = outer.foldr step (serve rest h req (capsThrough outer c)) := by
   induction outer generalizing c with
   | nil => rfl
   | cons l ls ih =>
     have h1 : intervenes l req = false := hout l (by simp)
     have h2 : ∀ x ∈ ls, intervenes x req = false := fun x hx => hout x (by simp [hx])
-    simp [serve, h1, ih _ h2]
+    simp [serve, h1, ih _ h2, step]
 
 theorem foldr_post_hijacked (outer : List LayerCfg) (r : Result) (hh : r.hijacked = true) :
-    outer.foldr post r = r := by
+    outer.foldr step r = r := by
   induction outer with
   | nil => rfl
-  | cons l ls ih => simp [ih, post, hh]
+  | cons l ls ih => simp [ih, step, post, retryMul, retryable, hh]
+
+theorem retryMul_plain (l : LayerCfg) (x : Result) (hx : x.hijacked = false)
+    (ho : overflows l x.resp.body.length = false) :
+    retryMul l x = { x with invoked := (if (retryBuf l && netErr x.resp.status) = true then 3 else 1) * x.invoked } := by
+  obtain ⟨resp, inv, seen, hij, fl, infos, ex⟩ := x
+  simp only at hx ho
+  subst hx
+  unfold retryMul retryable
+  simp only [ho]
+  cases hrb : retryBuf l <;> cases hne : netErr resp.status <;> simp
+
+/-- number of handler runs caused by the retrying buffers of `outer` for a response with this status -/
+def attemptsThrough : List LayerCfg → Nat → Nat
+  | [], _ => 1
+  | l :: ls, st => (if (retryBuf l && netErr st) = true then 3 else 1) * attemptsThrough ls st
+
+theorem attemptsThrough_one (outer : List LayerCfg) (st : Nat) (h : ∀ l ∈ outer, (retryBuf l && netErr st) = false) :
+    attemptsThrough outer st = 1 := by
+  induction outer with
+  | nil => rfl
+  | cons l ls ih =>
+    have h1 := h l (by simp)
+    have h2 := ih (fun x hx => h x (by simp [hx]))
+    simp [attemptsThrough, h1, h2]
+
+theorem attemptsThrough_pow (outer : List LayerCfg) (st : Nat) (h : netErr st = true) :
+    attemptsThrough outer st = 3 ^ outer.countP retryBuf := by
+  induction outer with
+  | nil => rfl
+  | cons l ls ih =>
+    cases hb : retryBuf l
+    · simp [attemptsThrough, hb, ih]
+    · simp [attemptsThrough, hb, h, ih, Nat.pow_succ, Nat.mul_comm]
 
 /-- 1xx calls still arriving at the outside of `outer`: a buffer swallows them -/
 def infosThrough : List LayerCfg → List Nat → List Nat
@@ -127,10 +163,11 @@ buffers see a final `WriteHeader`, or no 1xx at all (or there is no buffer). -/
 theorem foldr_post_plain (outer : List LayerCfg) (r : Result) (hh : r.hijacked = false)
     (ho : ∀ l ∈ outer, overflows l r.resp.body.length = false)
     (hd : r.explicit = true ∨ r.infos = [] ∨ ¬ hasBuffer outer) :
-    outer.foldr post r = { r with resp := decorate outer r.resp, infos := infosThrough outer r.infos,
-                                  explicit := explicitThrough outer r.explicit } := by
+    outer.foldr step r = { r with resp := decorate outer r.resp, infos := infosThrough outer r.infos,
+                                  explicit := explicitThrough outer r.explicit,
+                                  invoked := attemptsThrough outer r.resp.status * r.invoked } := by
   induction outer with
-  | nil => rfl
+  | nil => simp [attemptsThrough, infosThrough, explicitThrough]
   | cons l ls ih =>
     have h1 : overflows l r.resp.body.length = false := ho l (by simp)
     have h2 : ∀ x ∈ ls, overflows x r.resp.body.length = false := fun x hx => ho x (by simp [hx])
@@ -139,7 +176,11 @@ theorem foldr_post_plain (outer : List LayerCfg) (r : Result) (hh : r.hijacked =
       · exact Or.inl h
       · exact Or.inr (Or.inl h)
       · exact Or.inr (Or.inr (fun ⟨x, hx, e⟩ => h ⟨x, by simp [hx], e⟩))
-    rw [List.foldr_cons, ih h2 hd']
+    have hrm := retryMul_plain l
+      ⟨decorate ls r.resp, attemptsThrough ls r.resp.status * r.invoked, r.seen, r.hijacked, r.flushed, infosThrough ls r.infos, explicitThrough ls r.explicit⟩
+      hh (by simpa [decorate_body] using h1)
+    rw [List.foldr_cons, ih h2 hd', step, hrm]
+    simp only [attemptsThrough, decorate_status, ← Nat.mul_assoc]
     by_cases hk : l.kind = Kind.buffer
     · -- a buffer: it must see an explicit final status or no 1xx
       have hcase : explicitThrough ls r.explicit = true ∨ (explicitThrough ls r.explicit = false ∧ infosThrough ls r.infos = []) := by
@@ -186,50 +227,67 @@ theorem eff_kind (l : LayerCfg) (n : Nat) : (eff l n).kind = l.kind := by
 theorem post_eff (l : LayerCfg) (n : Nat) (r : Result) : post (eff l n) r = post l r := by
   unfold eff; split <;> rfl
 
-/-- without a panic the stateful stack answers exactly like the stateless one on the effective configuration -/
-theorem serveSt_served (sl : List SLayer) (h : Req → Script) (req : Req) (c : Caps) :
-    (serveSt sl h req false c).1 = .served (serve (effStack sl) h req c) := by
-  induction sl generalizing c with
-  | nil => simp [serveSt, serve, effStack]
-  | cons p ls ih =>
-    obtain ⟨l, n⟩ := p
-    by_cases hi : intervenes (eff l n) req = true
-    · simp [serveSt, serve, effStack, hi]
-    · have hi' : intervenes (eff l n) req = false := by simpa using hi
-      have := ih (wrapCaps l.kind c)
-      simp only [effStack] at this
-      simp [serveSt, serve, effStack, hi', this, eff_kind, post_eff]
+theorem retryBuf_eff (l : LayerCfg) (n : Nat) : retryBuf (eff l n) = retryBuf l := by
+  unfold eff; split <;> simp_all [retryBuf]
 
-/-- what an admitted request leaves behind in a layer, whether it returns or panics -/
-def after (p : SLayer) : SLayer := (p.1, leave p.1.kind (enter p.1.kind p.2))
+theorem retryable_of_not_retryBuf (l : LayerCfg) (r : Result) (h : retryBuf l = false) : retryable l r = false := by
+  simp [retryable, h]
+
+/-- without a panic and without retrying buffers the stateful stack answers exactly like the stateless one on the
+effective configuration -/
+theorem serveSt_served (stack : List LayerCfg) (st : List Nat) (h : Req → Script) (req : Req) (c : Caps)
+    (hnr : ∀ l ∈ stack, retryBuf l = false) :
+    (serveSt stack st h req false c).1 = .served (serve (effStack stack st) h req c) := by
+  induction stack generalizing st c with
+  | nil => simp [serveSt, serve, effStack]
+  | cons l ls ih =>
+    have hl : retryBuf l = false := hnr l (by simp)
+    have hls : ∀ x ∈ ls, retryBuf x = false := fun x hx => hnr x (by simp [hx])
+    by_cases hi : intervenes (eff l (hd0 st)) req = true
+    · simp [serveSt, serve, effStack, hi]
+    · have hi' : intervenes (eff l (hd0 st)) req = false := by simpa using hi
+      have h1 := ih st.tail (wrapCaps l.kind c) hls
+      have hr1 : ∀ x, retryable l x = false := fun x => retryable_of_not_retryBuf l x hl
+      have hr2 : ∀ x, retryable (eff l (hd0 st)) x = false :=
+        fun x => retryable_of_not_retryBuf _ x (by rw [retryBuf_eff]; exact hl)
+      simp [serveSt, serve, effStack, hi', h1, eff_kind, post_eff, Outcome.retryableBy, hr1, retryMul, hr2]
+
+/-- what an admitted request leaves behind in the layers it passed, whether it returns or panics -/
+def stateAfter : List LayerCfg → List Nat → List Nat
+  | [], _ => []
+  | l :: ls, st => leave l.kind (enter l.kind (hd0 st)) :: stateAfter ls st.tail
 
 /-- a panicking handler behind passing layers: one invocation, every layer has run exactly its deferred code -/
-theorem serveSt_aborted (sl : List SLayer) (h : Req → Script) (req : Req) (c : Caps)
-    (hp : ∀ l ∈ effStack sl, intervenes l req = false) :
-    serveSt sl h req true c = (.aborted 1, sl.map after) := by
-  induction sl generalizing c with
-  | nil => simp [serveSt]
-  | cons p ls ih =>
-    obtain ⟨l, n⟩ := p
-    have h1 : intervenes (eff l n) req = false := hp _ (by simp [effStack])
-    have h2 : ∀ x ∈ effStack ls, intervenes x req = false := fun x hx => hp x (by
-      simp only [effStack, List.map_cons, List.mem_cons]; exact Or.inr hx)
-    simp [serveSt, h1, ih _ h2, after]
+theorem serveSt_aborted (stack : List LayerCfg) (st : List Nat) (h : Req → Script) (req : Req) (c : Caps)
+    (hp : ∀ l ∈ effStack stack st, intervenes l req = false) :
+    serveSt stack st h req true c = (.aborted 1, stateAfter stack st) := by
+  induction stack generalizing st c with
+  | nil => simp [serveSt, stateAfter]
+  | cons l ls ih =>
+    have h1 : intervenes (eff l (hd0 st)) req = false := hp _ (by simp [effStack])
+    have h2 : ∀ x ∈ effStack ls st.tail, intervenes x req = false := fun x hx => hp x (by simp [effStack, hx])
+    simp [serveSt, h1, ih _ _ h2, stateAfter, Outcome.retryableBy]
 
-theorem eff_after (p : SLayer) (hb : p.1.kind = Kind.ratelimit → 2 ≤ p.2) :
-    eff (after p).1 (after p).2 = eff p.1 p.2 := by
-  obtain ⟨l, n⟩ := p
-  cases hk : l.kind <;> simp_all [after, eff, enter, leave]
-  omega
-
-theorem effStack_after (sl : List SLayer) (hb : ∀ p ∈ sl, p.1.kind = Kind.ratelimit → 2 ≤ p.2) :
-    effStack (sl.map after) = effStack sl := by
-  induction sl with
-  | nil => rfl
-  | cons p ls ih =>
-    have h1 := eff_after p (hb p (by simp))
-    have h2 := ih (fun q hq => hb q (by simp [hq]))
-    simp only [effStack, List.map_cons, List.map_map] at *
+theorem eff_after (l : LayerCfg) (n : Nat) (hb : l.kind = Kind.ratelimit → 2 ≤ n) :
+    eff l (leave l.kind (enter l.kind n)) = eff l n := by
+  cases hk : l.kind <;> simp_all [eff, enter, leave]
+  · rfl
+  · have h1 : n - 1 ≠ 0 := by omega
+    have h2 : n ≠ 0 := by omega
     simp [h1, h2]
+
+/-- `ample stack st`: every rate limiter of the stack has at least two tokens left -/
+def ample : List LayerCfg → List Nat → Prop
+  | [], _ => True
+  | l :: ls, st => (l.kind = Kind.ratelimit → 2 ≤ hd0 st) ∧ ample ls st.tail
+
+theorem effStack_after (stack : List LayerCfg) (st : List Nat) (hb : ample stack st) :
+    effStack stack (stateAfter stack st) = effStack stack st := by
+  induction stack generalizing st with
+  | nil => rfl
+  | cons l ls ih =>
+    obtain ⟨h1, h2⟩ := hb
+    have hh : hd0 (leave l.kind (enter l.kind (hd0 st)) :: stateAfter ls st.tail) = leave l.kind (enter l.kind (hd0 st)) := rfl
+    simp [effStack, stateAfter, hh, eff_after l _ h1, ih _ h2]
 
 end Stack
